@@ -53,7 +53,6 @@ def on_run(rec, run, w, size):
 def on_case(rec, case):
     rec.count("traces")
     rec.count("transitions", len(case.log.hits))
-    rec.mark("states", case.data)
     lists, pairs = monitors.c05(rec, case.tree, case.log, case.witness(), case.size)
     rec.count("child_lists_checked", lists)
     rec.count("containment_pairs", pairs)
